@@ -376,7 +376,7 @@ pub fn replay(v: &Value) -> i32 {
     let (f, _) = m.load_buffer(text.as_bytes(), "x.arxml", true).expect("source document loads");
     for v2 in VERSIONS {
         let (errs, mask) = f.check_version_compatibility(v2);
-        let relabelled = text.replace(f.version().filename(), v2.filename());
+        let relabelled = text.replace(xsd_name(f.version()), xsd_name(v2));
         let strict = AutosarModel::new().load_buffer(relabelled.as_bytes(), "y.arxml", true).map(|_| ()).map_err(|e| e.to_string());
         println!("{v2:?}: check={:?} mask_has_target={} strict_load_as_target={strict:?}", compat_kinds(&errs), v2.compatible(mask));
     }
